@@ -751,11 +751,20 @@ def faulted_op(ctx, S, M, op, w, mode, armed, rng, sig):
         S.ctl.reset()
         ctx.event('fault-not-reached')
         sig.append(op[0])
+        # the operation completed: judged (and the defaults whose fate is not prescribed re-read) as after any other operation
+        check_invariants(ctx, S, M, w, op[0])
         return M, False
     except InjectedFault as f:
         S.ctl.reset()
         ctx.event('fault-injected:' + str(f).split('#')[0])
         sig.append(f'{op[0]}!{f}')
+        if op[0] == 'new_key' and op[3] not in (None, '', b''):
+            # a creation under an explicit key id that did not complete may leave its freshly written private-key file behind:
+            # that is an orphan of the failed creation (an observation), not the file of the key of that name deleted earlier
+            kn = op[1] + (C(b'KEY'), C(op[3] if isinstance(op[3], bytes) else op[3].encode()))
+            if kn in M.deleted_keys and M.find_key(kn) is None:
+                M.deleted_keys.discard(kn)
+                ctx.event('observation:failed-creation-reuses-deleted-key-name')
         if str(f).startswith('os.remove') and op[0] in ('del_key', 'del_identity'):
             # the removal of a private key file failed: which keys that concerns (see the open finding)
             gone = [op[2]] if op[0] == 'del_key' else list(M.ids.get(op[1], {'keys': {}})['keys'])
